@@ -55,32 +55,28 @@ fn mk_cm(kind: i128, cs: &[Sx]) -> Option<CompuMethod> {
     Some(cm)
 }
 
-pub fn run(case: &Sx) -> Sx {
-    let c = case.as_list();
+/// put the object of a case (with its compu method and record layout) into a module; returns the block name of the object
+fn fill_module(m: &mut Module, c: &[Sx], name: &str, rlname: &str) -> &'static str {
     let okind = c[0].as_int();
     let dtype = dt(c[1].as_int());
     let cm = mk_cm(c[2].as_int(), c[3].as_list());
     let (lo, hi) = (f(&c[4]), f(&c[5]));
-    let calc = verif_hooks::calc_compu_method_limits(cm.as_ref(), dtype);
-
-    let mut a2l = a2lfile::new();
-    let m = &mut a2l.project.module[0];
     let conv = if cm.is_some() { s("cm") } else { s("NO_COMPU_METHOD") };
     if let Some(cm) = cm {
         m.compu_method.push(cm);
     }
-    let mut rl = RecordLayout::new(s("rl"));
+    let mut rl = RecordLayout::new(s(rlname));
     let blockname;
     match okind {
         0 => {
             blockname = "MEASUREMENT";
-            m.measurement.push(Measurement::new(s("obj"), s(""), dtype, conv, 0, 0.0, lo, hi));
+            m.measurement.push(Measurement::new(s(name), s(""), dtype, conv, 0, 0.0, lo, hi));
         }
         1 => {
             blockname = "CHARACTERISTIC";
             rl.fnc_values = Some(FncValues::new(1, dtype, IndexMode::RowDir, AddrType::Direct));
             m.characteristic.push(Characteristic::new(
-                s("obj"), s(""), CharacteristicType::Value, 0, s("rl"), 0.0, conv, lo, hi,
+                s(name), s(""), CharacteristicType::Value, 0, s(rlname), 0.0, conv, lo, hi,
             ));
         }
         7 | 8 | 9 => {
@@ -88,7 +84,7 @@ pub fn run(case: &Sx) -> Sx {
             blockname = "CHARACTERISTIC";
             rl.fnc_values = Some(FncValues::new(1, dtype, IndexMode::RowDir, AddrType::Direct));
             let ctype = match okind { 7 => CharacteristicType::Ascii, 8 => CharacteristicType::ValBlk, _ => CharacteristicType::Curve };
-            let mut ch = Characteristic::new(s("obj"), s(""), ctype, 0, s("rl"), 0.0, conv, lo, hi);
+            let mut ch = Characteristic::new(s(name), s(""), ctype, 0, s(rlname), 0.0, conv, lo, hi);
             if okind == 7 || okind == 8 {
                 ch.number = Some(Number::new(4));
             } else {
@@ -102,7 +98,7 @@ pub fn run(case: &Sx) -> Sx {
             blockname = "TYPEDEF_CHARACTERISTIC";
             rl.fnc_values = Some(FncValues::new(1, dtype, IndexMode::RowDir, AddrType::Direct));
             let ctype = if okind == 10 { CharacteristicType::Value } else { CharacteristicType::Ascii };
-            let mut tc = TypedefCharacteristic::new(s("obj"), s(""), ctype, s("rl"), 0.0, conv, lo, hi);
+            let mut tc = TypedefCharacteristic::new(s(name), s(""), ctype, s(rlname), 0.0, conv, lo, hi);
             if okind == 11 {
                 tc.number = Some(Number::new(4));
             }
@@ -112,7 +108,7 @@ pub fn run(case: &Sx) -> Sx {
             blockname = "AXIS_PTS";
             rl.axis_pts_x = Some(AxisPtsDim::new(1, dtype, IndexOrder::IndexIncr, AddrType::Direct));
             m.axis_pts.push(AxisPts::new(
-                s("obj"), s(""), 0, s("NO_INPUT_QUANTITY"), s("rl"), 0.0, conv, 2, lo, hi,
+                s(name), s(""), 0, s("NO_INPUT_QUANTITY"), s(rlname), 0.0, conv, 2, lo, hi,
             ));
         }
         3 => {
@@ -120,7 +116,7 @@ pub fn run(case: &Sx) -> Sx {
             rl.fnc_values = Some(FncValues::new(1, DataType::Float64Ieee, IndexMode::RowDir, AddrType::Direct));
             rl.axis_pts_x = Some(AxisPtsDim::new(2, dtype, IndexOrder::IndexIncr, AddrType::Direct));
             let mut ch = Characteristic::new(
-                s("obj"), s(""), CharacteristicType::Curve, 0, s("rl"), 0.0, s("NO_COMPU_METHOD"), 0.0, 0.0,
+                s(name), s(""), CharacteristicType::Curve, 0, s(rlname), 0.0, s("NO_COMPU_METHOD"), 0.0, 0.0,
             );
             ch.axis_descr.push(AxisDescr::new(
                 AxisDescrAttribute::StdAxis, s("NO_INPUT_QUANTITY"), conv, 2, lo, hi,
@@ -136,7 +132,7 @@ pub fn run(case: &Sx) -> Sx {
             rl.fnc_values = Some(FncValues::new(1, DataType::Float64Ieee, IndexMode::RowDir, AddrType::Direct));
             rl.axis_pts_x = Some(AxisPtsDim::new(2, other, IndexOrder::IndexIncr, AddrType::Direct));
             let ctype = if okind == 5 { CharacteristicType::Map } else { CharacteristicType::Cuboid };
-            let mut ch = Characteristic::new(s("obj"), s(""), ctype, 0, s("rl"), 0.0, s("NO_COMPU_METHOD"), 0.0, 0.0);
+            let mut ch = Characteristic::new(s(name), s(""), ctype, 0, s(rlname), 0.0, s("NO_COMPU_METHOD"), 0.0, 0.0);
             let mut fix = AxisDescr::new(AxisDescrAttribute::FixAxis, s("NO_INPUT_QUANTITY"), s("NO_COMPU_METHOD"), 2, 0.0, 1.0);
             fix.fix_axis_par_dist = Some(FixAxisParDist::new(0, 1, 2));
             ch.axis_descr.push(fix);
@@ -156,10 +152,21 @@ pub fn run(case: &Sx) -> Sx {
         }
         _ => {
             blockname = "TYPEDEF_MEASUREMENT";
-            m.typedef_measurement.push(TypedefMeasurement::new(s("obj"), s(""), dtype, conv, 0, 0.0, lo, hi));
+            m.typedef_measurement.push(TypedefMeasurement::new(s(name), s(""), dtype, conv, 0, 0.0, lo, hi));
         }
     }
     m.record_layout.push(rl);
+    blockname
+}
+
+pub fn run(case: &Sx) -> Sx {
+    let c = case.as_list();
+    let dtype = dt(c[1].as_int());
+    let cm = mk_cm(c[2].as_int(), c[3].as_list());
+    let calc = verif_hooks::calc_compu_method_limits(cm.as_ref(), dtype);
+
+    let mut a2l = a2lfile::new();
+    let blockname = fill_module(&mut a2l.project.module[0], c, "obj", "rl");
     let log = a2l.check();
     let mut err = 0;
     let mut other = vec![];
@@ -182,4 +189,38 @@ pub fn run(case: &Sx) -> Sx {
         return Sx::L(vec![Sx::s("UNEXPECTED"), Sx::s(&other.join(" | "))]);
     }
     Sx::L(vec![Sx::I(err), bits(calc.0), bits(calc.1)])
+}
+
+/// C12M: several cases in ONE file, one MODULE per case, every module with a compu method of the same name "cm" and an
+/// object of its own name; one check() for the file.  answer ::= ( i<limit errors reported for the object of module k>* )
+pub fn run_multi(case: &Sx) -> Sx {
+    let cases = case.as_list();
+    let mut a2l = a2lfile::new();
+    let mut names = vec![];
+    for (k, c) in cases.iter().enumerate() {
+        if k > 0 {
+            a2l.project.module.push(Module::new(format!("mod{k}"), s("")));
+        }
+        let name = format!("obj{k}");
+        let blockname = fill_module(&mut a2l.project.module[k], c.as_list(), &name, "rl");
+        names.push((name, blockname));
+    }
+    let log = a2l.check();
+    let mut errs = vec![0i128; cases.len()];
+    let mut other = vec![];
+    for e in &log {
+        match e {
+            A2lError::LimitCheckError { item_name, blockname: b, .. } => {
+                match names.iter().position(|(n, bn)| n == item_name && bn == b) {
+                    Some(k) => errs[k] += 1,
+                    None => other.push(format!("{e}")),
+                }
+            }
+            _ => other.push(format!("{e}")),
+        }
+    }
+    if !other.is_empty() {
+        return Sx::L(vec![Sx::s("UNEXPECTED"), Sx::s(&other.join(" | "))]);
+    }
+    Sx::L(errs.into_iter().map(Sx::I).collect())
 }
